@@ -81,8 +81,10 @@ func (f *Rassoc) Call(s *slip.Scope, args slip.List, depth int) (found slip.Obje
 			keyFunc = ResolveToCaller(s, args[pos+1], depth)
 		case ":test":
 			testFunc = ResolveToCaller(s, args[pos+1], depth)
+		case ":test-not":
+			testFunc = notCaller{Caller: ResolveToCaller(s, args[pos+1], depth)}
 		default:
-			slip.TypePanic(s, depth, "keyword", sym, ":key", ":test")
+			slip.TypePanic(s, depth, "keyword", sym, ":key", ":test", ":test-not")
 		}
 	}
 	d2 := depth + 1
